@@ -297,6 +297,12 @@ pub fn hostile_devs() -> Vec<(usize, String)> {
     for v in ["32767", "32768", "-32768", "-32769", "", "abc", "1e3"] {
         d.push((3, v.to_string()));
     }
+    // long malformed values of mixed character widths (an error message that quotes a value must not cut it inside a character)
+    for f in [1usize, 3, 13, 14, 15, 18] {
+        for pad in 0..3usize {
+            d.push((f, format!("{}{}", "a".repeat(pad), "あ𠮷é".repeat(12))));
+        }
+    }
     d.push((4, "あ".repeat(11000)));
     d.push((4, "".to_string()));
     d.push((5, "𠮷".repeat(16384)));
@@ -435,12 +441,15 @@ enum BOp {
     Lex,
     LexInline,
     LexBadRef,
+    /// a lexicon whose first row (with an inline reference) is fine and whose second row is malformed:
+    /// the read fails after the first row has been taken in
+    LexHalfBad,
     Resolve,
     Compile,
 }
 
 fn order_cases(max: usize) -> Vec<Vec<BOp>> {
-    let ops = [BOp::Conn, BOp::ConnSmall, BOp::ConnFailing, BOp::Lex, BOp::LexInline, BOp::LexBadRef, BOp::Resolve, BOp::Compile];
+    let ops = [BOp::Conn, BOp::ConnSmall, BOp::ConnFailing, BOp::Lex, BOp::LexInline, BOp::LexBadRef, BOp::LexHalfBad, BOp::Resolve, BOp::Compile];
     let mut all: Vec<Vec<BOp>> = vec![vec![]];
     let mut cur: Vec<Vec<BOp>> = vec![vec![]];
     for _ in 0..max {
@@ -555,6 +564,7 @@ pub fn main(tier: Tier, replay: Option<String>) -> i32 {
                                 BOp::Lex => b.read_lexicon(valid.as_bytes()).map(|_| ()).map_err(|e| e.to_string()),
                                 BOp::LexInline => b.read_lexicon(inline.as_bytes()).map(|_| ()).map_err(|e| e.to_string()),
                                 BOp::LexBadRef => b.read_lexicon(badref.as_bytes()).map(|_| ()).map_err(|e| e.to_string()),
+                                BOp::LexHalfBad => b.read_lexicon(format!("{}あ,x,1\n", inline).as_bytes()).map(|_| ()).map_err(|e| e.to_string()),
                                 BOp::Resolve => b.resolve().map(|_| ()).map_err(|e| e.to_string()),
                                 BOp::Compile => {
                                     let mut v = Vec::new();
